@@ -343,7 +343,9 @@ class Signal(np.lib.mixins.NDArrayOperatorsMixin):
             chunks = (-1,) + ("auto",) * (self.ndim - 1)
 
         x = dask.array.asanyarray(self.data)
-        return type(self).like(self, x.rechunk(chunks, **kwargs))
+        if x.size:
+            x = x.rechunk(chunks, **kwargs)
+        return type(self).like(self, x)
 
     @classmethod
     def like(cls, obj, z=None, /, **kwargs):
